@@ -1622,6 +1622,8 @@ func TestVerif_C06(t *testing.T) {
 	r.Assume("the shipped DDL files are the unmodified output of h5dump 1.14.6 on the shipped corpus files of the same name; h5dump options are inferred from the DDL content only")
 	r.Assume("float values printed by h5dump (%g, or a -m format) match when the printed decimal is the correct rounding of the reader's value to the digits printed")
 
+	vfC06CrossDecoder(r)
+
 	if out := os.Getenv("VERIF_C06_DUMP"); out != "" {
 		var all []*vfC06Fail
 		for _, k := range keys {
